@@ -95,7 +95,7 @@ PROPS = {
             "enum_every": {"quick": 50, "thorough": 20},
         }],
         "technique": "deterministic simulation with fault injection: seeded write-then-read scenarios over simulated files (torn/short writes, truncation at an arbitrary byte, chunked and failing reads) and over a simulated codecvt facet (narrowed output windows, injected errors, torn encodings); oracle 'value read == value written, or failure, never another value'; byte layout on the simulated disk; minimised replay",
-        "level_text": "Covers the stream- and facet-facing subset of C15: io::write -> io::read for ten arithmetic types and both byte orders (including the byte layout on the simulated disk), write_chars -> read_chars, operator<< / operator>> of math::vector, math::dim and an enum over char and wchar_t streams, narrow_locale / widen_locale through a simulated codecvt facet layered on the real C.utf8 facet (strings of 0-40 characters, one in sixteen 41-2048), and in fault-free conversions also narrow / widen / from_std_wstring / to_std_wstring with the environment's locale set to C.UTF-8. Faults: the writer's file accepts only n bytes (torn write), the reader sees only the first n bytes (lost tail), refills throw, the facet offers narrow output windows on its first calls (legal partial results), answers partial for ever from some offset, or reports an error, encodings are torn inside a character. Oracle: every acknowledged value lying wholly in the file reads back exactly; a torn or missing value yields failure, never a value; no read succeeds after a failed one; conversions return the complete result or report failure (a strict prefix is 'silent truncation'). output_to_std_string / output_to_std_wstring -> extract_from_string also run with injected allocation failures (a conversion hit by one reports it or returns the complete text, and later conversions are unaffected); endianness::swap twice and enum to_string -> from_string ride along in fault-free runs only. NOT covered: the exhaustive sweep over all Unicode scalar values and all 8/16-bit integers (pure input enumeration, no seam). Sampling, not proof.",
+        "level_text": "Covers the stream- and facet-facing subset of C15: io::write -> io::read for eleven arithmetic types (integers of every width, float, double, long double) and both byte orders (including the byte layout on the simulated disk), write_chars -> read_chars, operator<< / operator>> of math::vector, math::dim and an enum over char and wchar_t streams, narrow_locale / widen_locale through a simulated codecvt facet layered on the real C.utf8 facet (strings of 0-40 characters including now and then U+0000, one in sixteen 41-2048), and in fault-free conversions also narrow / widen / from_std_wstring / to_std_wstring with the environment's locale set to C.UTF-8. Faults: the writer's file accepts only n bytes (torn write), the reader sees only the first n bytes (lost tail), refills throw, the facet offers narrow output windows on its first calls (legal partial results), answers partial for ever from some offset, or reports an error, encodings are torn inside a character. Oracle: every acknowledged value lying wholly in the file reads back exactly; a torn or missing value yields failure, never a value; no read succeeds after a failed one; conversions return the complete result or report failure (a strict prefix is 'silent truncation'). output_to_std_string / output_to_std_wstring -> extract_from_string also run with injected allocation failures (a conversion hit by one reports it or returns the complete text, and later conversions are unaffected); endianness::swap twice and enum to_string -> from_string ride along in fault-free runs only. NOT covered: the exhaustive sweep over all Unicode scalar values and all 8/16-bit integers (pure input enumeration, no seam). Sampling, not proof.",
         "level_note": "Stubs: the files behind the streams (sim::StreamBuf), the codecvt facet wrapper (sim::Codecvt over the real C.utf8 facet). Trusted: an independent UTF-8 encoder as reference, the harness, ASan/UBSan. long double is excluded (padding bytes do not survive by-value passing).",
         "rule": "One run = 1-6 independent write-then-read scenarios (binary values, raw chars, text formats, codecvt conversions), half of the runs with injected faults. Every scenario counts as non-trivial; distinct = distinct plans.",
         "real": REAL_COMMON + ["io::read/write, endianness::convert/swap/reverse_mem, write_chars/read_chars, enum_::input/output/to_string/from_string, math vector/dim input/output, impl::codecvt via narrow_locale/widen_locale, output_to_string/extract_from_string", "the real C.utf8 codecvt facet underneath sim::Codecvt"],
